@@ -3,6 +3,7 @@ package scen
 import (
 	"context"
 	"fmt"
+	"github.com/els0r/goProbe/v4/pkg/goDB/storage/gpfile"
 	"sort"
 	"strings"
 
@@ -132,6 +133,7 @@ func c25Inspect(dst string, cfg *c24Cfg, options map[c24Cell][][]c24Blk) (string
 }
 
 func c25Run(x *explore.Ctx) {
+	gpfile.VerifResetPools()
 	sc := c25Scens[x.Case%len(c25Scens)]
 	cfg := c24CfgSmall1
 	p := c24BuildPair(cfg, sc.srcSt, sc.dstSt, true)
@@ -227,11 +229,12 @@ func c25TopLevel(dst string) []string {
 func init() {
 	register("C25", &explore.Scenario{
 		ID: "C25", Name: "kill at every mutating step of MergeDatabases", Level: "fault_enumeration",
-		Rule: "cases = 6 merge scenarios over 2 days (copy new days; copy over an existing partial day with overwrite; rebuild with destination / source winning; skip; combinations); the real MergeDatabases runs over the vos shim and is killed before EVERY mutating file-system step (mkdir, create, write, chmod, rename, unlink/rmdir of stage, day and backup directories; thorough: also inside writes). On the destination as left: the interface list contains only real interfaces, a query over 'any' and the listing succeed, every day's rows equal its pre-merge or its merged content (never both, never neither); then a complete merge must succeed and yield the merged content. non-trivial = executions with a kill, distinct by (scenario, step)",
-		Cases: func(t string) int { return len(c25Scens) },
-		Bound: func(t string) int { return 1 },
-		Run:   c25Run,
-		Setup: func(string) { engine.VerifSetNumProcessingUnits(1) },
+		Rule:     "cases = 6 merge scenarios over 2 days (copy new days; copy over an existing partial day with overwrite; rebuild with destination / source winning; skip; combinations); the real MergeDatabases runs over the vos shim and is killed before EVERY mutating file-system step (mkdir, create, write, chmod, rename, unlink/rmdir of stage, day and backup directories; thorough: also inside writes). On the destination as left: the interface list contains only real interfaces, a query over 'any' and the listing succeed, every day's rows equal its pre-merge or its merged content (never both, never neither); then a complete merge must succeed and yield the merged content. non-trivial = executions with a kill, distinct by (scenario, step)",
+		Cases:    func(t string) int { return len(c25Scens) },
+		Bound:    func(t string) int { return 1 },
+		Run:      c25Run,
+		PanicSig: "panic",
+		Setup:    func(string) { engine.VerifSetNumProcessingUnits(1) },
 		Assumptions: []string{"process kill semantics (completed system calls persist in order); io.Copy decomposed into read/write steps by the shim",
 			"databases from the C24 builders: small days under an 11 h completeness tolerance"},
 	})
